@@ -174,6 +174,10 @@ pub trait Prop {
         let v = Self::execute(&case, ctx);
         (case, v)
     }
+    /// How a case is shown in the evidence file's `samples` (default: its JSON).
+    fn view(case: &Self::Case) -> Value {
+        serde_json::to_value(case).unwrap()
+    }
     /// Extra deterministic cases executed before the random ones (index-addressed).
     fn fixed_cases() -> Vec<Self::Case> {
         vec![]
@@ -262,8 +266,8 @@ pub fn worker<P: Prop>(a: WorkerArgs) -> i32 {
                 break;
             }
         } else if ctx.wants_sample() && i % 97 == a.shard % 97 {
-            let v = serde_json::to_value(&case).unwrap();
-            ctx.sample(truncate_json(v, 1200));
+            let v = P::view(&case);
+            ctx.sample(truncate_json(v, 2500));
         }
         i += a.shards;
         since_flush += 1;
